@@ -77,3 +77,44 @@ package flags
 //@   ensures arg != nil ==> option == name + "=" + *arg && split == "="
 //@   ensures arg != nil && islong ==> !contains(name, "=")
 //@   ensures arg == nil ==> name == option && split == ""
+
+// ===================================================================
+// closest.go
+// ===================================================================
+
+// Levenshtein distance over rune sequences by the Wagner-Fischer recurrence.
+//@ pure func min3(a int, b int, c int) int = ite(a <= b, ite(a <= c, a, c), ite(b <= c, b, c))
+//@ pure func lev(a []rune, b []rune, i int, j int) int = ite(i <= 0, ite(j <= 0, 0, j), ite(j <= 0, i, ite(a[i-1] == b[j-1], lev(a, b, i-1, j-1), 1 + min3(lev(a, b, i-1, j-1), lev(a, b, i, j-1), lev(a, b, i-1, j)))))
+//@ lemma[C20] lev_row0: forall a []rune, b []rune, p int, q int :: unfold(lev(a, b, p, q)) && p <= 0 && q >= 0 ==> lev(a, b, p, q) == q
+//@ lemma[C20] lev_col0: forall a []rune, b []rune, p int, q int :: unfold(lev(a, b, p, q)) && q <= 0 && p >= 0 ==> lev(a, b, p, q) == p
+//@ pure func editDistance(s string, t string) int = lev([]rune(s), []rune(t), len([]rune(s)), len([]rune(t)))
+
+//@ func levenshtein(s string, t string) (d int)
+//@   props C20 C04
+//@   loop 1 invariant len(dists) == len(a)+1 && len(a) > 0 && len(b) > 0
+//@   loop 1 invariant forall(k, 0, idx_1, len(dists[k]) == len(b)+1 && dists[k][0] == k)
+//@   loop 2 invariant len(dists) == len(a)+1 && len(a) > 0 && len(b) > 0
+//@   loop 2 invariant forall(k, 0, len(a)+1, len(dists[k]) == len(b)+1 && dists[k][0] == k)
+//@   loop 2 invariant forall(k, 0, idx_2, dists[0][k] == k)
+//@   loop 3 invariant len(dists) == len(a)+1 && len(a) > 0 && len(b) > 0
+//@   loop 3 invariant forall(k, 0, len(a)+1, len(dists[k]) == len(b)+1)
+//@   loop 3 invariant forall(p, 0, len(a)+1, dists[p][0] == p)
+//@   loop 3 invariant forall(p, 0, idx_3+1, forall(q, 0, len(b)+1, dists[p][q] == lev(a, b, p, q)))
+//@   loop 4 invariant len(dists) == len(a)+1 && len(a) > 0 && len(b) > 0 && 0 <= i && i < len(a)
+//@   loop 4 invariant forall(k, 0, len(a)+1, len(dists[k]) == len(b)+1)
+//@   loop 4 invariant forall(p, 0, len(a)+1, dists[p][0] == p)
+//@   loop 4 invariant forall(p, 0, i+1, forall(q, 0, len(b)+1, dists[p][q] == lev(a, b, p, q)))
+//@   loop 4 invariant unfold(lev(a, b, i+1, idx_4))
+//@   loop 4 invariant forall(q, 0, idx_4+1, dists[i+1][q] == lev(a, b, i+1, q))
+//@   ensures[C20] d == editDistance(s, t)
+
+//@ func closestChoice(cmd string, choices []string) (c string, d int)
+//@   props C20 C04
+//@   loop 1 invariant len(choices) > 0
+//@   loop 1 invariant idx_1 == 0 ==> mincmd == -1
+//@   loop 1 invariant idx_1 > 0 ==> 0 <= mincmd && mincmd < idx_1 && mindist == editDistance(cmd, choices[mincmd])
+//@   loop 1 invariant idx_1 > 0 ==> forall(j, 0, idx_1, mindist <= editDistance(cmd, choices[j]))
+//@   loop 1 invariant idx_1 > 0 ==> forall(j, 0, mincmd, editDistance(cmd, choices[j]) > mindist)
+//@   ensures[C20] len(choices) == 0 ==> c == "" && d == 0
+//@   ensures[C20] len(choices) > 0 ==> exists(m, 0, len(choices), c == choices[m] && d == editDistance(cmd, choices[m]) && forall(j, 0, m, editDistance(cmd, choices[j]) > d))
+//@   ensures[C20] forall(j, 0, len(choices), d <= editDistance(cmd, choices[j]))
